@@ -3,9 +3,10 @@
 import ast
 
 from ..model import (walk, dotted, call_name, kwarg, unparse, short, UNKNOWN,
-                     root_name, AnalysisError, calls_in, names_in)
+                     root_name, AnalysisError, calls_in, names_in,
+                     stores_in_target)
 from ..cfg import cfg_of
-from ..flow import Deps, guards, must_pass, Exploration
+from ..flow import Deps, guards, must_pass, Exploration, loop_slice
 from .. import idioms as I
 
 BASE  = ('agent/scheduler/base.py', 'AgentSchedulingComponent')
@@ -542,18 +543,18 @@ def classify_guard(prog, f, d, atom, pol, loc, free, busy):
             loc in d.expr_depends(e.right)
     if avail(r) and not avail(l):
         if isinstance(op, (ast.LtE, ast.Lt)):
-            return 'ok' if pol else 'wrong'
+            return 'ok-share' if pol else 'wrong'
         if isinstance(op, (ast.Gt, ast.GtE)):
             # need > avail  -> must be the skipping branch
             if isinstance(op, ast.Gt):
-                return 'wrong' if pol else 'ok'
+                return 'wrong' if pol else 'ok-share'
             return 'wrong'
         return 'wrong'
     if avail(l) and not avail(r):
         if isinstance(op, (ast.GtE, ast.Gt)):
-            return 'ok' if pol else 'wrong'
+            return 'ok-share' if pol else 'wrong'
         if isinstance(op, ast.Lt):
-            return 'wrong' if pol else 'ok'
+            return 'wrong' if pol else 'ok-share'
         return 'wrong'
     return 'other'
 
@@ -576,7 +577,7 @@ def check_picks(prog, rep, f, kinds_loc, label, rid5='R01.5', rid6='R01.6',
                 verdicts.append((v, tid, lab))
         what = '%s: pick %s is guarded by a free/share test on %s' % (
             label, short(call, 50), loc)
-        if any(v == 'ok' for v, _, _ in verdicts):
+        if any(v.startswith('ok') for v, _, _ in verdicts):
             rep.ok(rid5, f, what, f.loc(call))
         elif any(v == 'wrong' for v, _, _ in verdicts):
             v, tid, lab = [x for x in verdicts if x[0] == 'wrong'][0]
@@ -603,7 +604,8 @@ def check_picks(prog, rep, f, kinds_loc, label, rid5='R01.5', rid6='R01.6',
             continue
         # R01.6: between a pick and the next evaluation of its guard, the
         # cursor / tally read by the guard (or the scan range) is written
-        okg = [(tid, lab) for v, tid, lab in verdicts if v == 'ok']
+        okg = [(tid, lab) for v, tid, lab in verdicts if v.startswith('ok')]
+        share = any(v == 'ok-share' for v, _, _ in verdicts)
         if not okg:
             continue
         tid = okg[0][0]
@@ -651,7 +653,7 @@ def check_picks(prog, rep, f, kinds_loc, label, rid5='R01.5', rid6='R01.6',
         for n in g.stmt_nodes():
             if n is F or n.kind not in ('stmt',):
                 continue
-            if _progress_names(n, d) & (w1names | w2names):
+            if _progress_names(n, d, accumulate=share) & (w1names | w2names):
                 writers.add(n.id)
         skip_edges = []
         if F is not None:
@@ -697,8 +699,11 @@ def check_picks(prog, rep, f, kinds_loc, label, rid5='R01.5', rid6='R01.6',
                   construct=call,
                   message='%s: after this pick there is a path back to its '
                   'guard `%s` on which nothing the guard (or its scan range) '
-                  'reads is written: the next slot of the same request '
-                  're-picks the same %s' % (label, short(G.ast, 60), kind[:-1]),
+                  'reads is written%s: the next slot of the same request '
+                  're-picks the same %s' % (label, short(G.ast, 60),
+                      ' in an accumulating way (a share tally that is '
+                      'overwritten forgets the shares handed out before)'
+                      if share else '', kind[:-1]),
                   loc=f.loc(call),
                   history='one request for several ranks on a node: the '
                   'second rank receives the same %s index as the first'
@@ -720,11 +725,25 @@ def _ancestors_noback(g, nid):
     return seen
 
 
-def _progress_names(n, d):
+_EXPL = {}
+
+
+def _explicit_deps(d):
+    """dependence closure of the same function without implicit flows"""
+    k = id(d.func)
+    if k not in _EXPL:
+        _EXPL[k] = Deps(d.func, implicit=False)
+    return _EXPL[k]
+
+
+def _progress_names(n, d, accumulate=False):
     """names whose value a statement *advances*: augmented assignments,
     stores through a subscript/attribute, mutator calls, and plain assignments
     whose right-hand side reads at least one name (a constant reset such as
-    `cursor = 0` restarts the scan and is not progress)"""
+    `cursor = 0` restarts the scan and is not progress).  With `accumulate`
+    (share idiom: several picks may legitimately hit the same index) a store
+    `tally[i] = v` only counts when v depends on the tally itself - an
+    overwrite remembers only the last share"""
     out = set()
     a = n.ast
     if isinstance(a, ast.AugAssign):
@@ -749,6 +768,10 @@ def _progress_names(n, d):
                     while isinstance(r, (ast.Subscript, ast.Attribute)):
                         r = r.value
                     if isinstance(r, ast.Name):
+                        if accumulate and value is not None and \
+                                r.id not in _explicit_deps(d).expr_depends(
+                                    value):
+                            continue
                         out.add(r.id)
     for c in calls_in(a):
         if isinstance(c.func, ast.Attribute) and c.func.attr in I.MUTATING:
@@ -1007,6 +1030,197 @@ def r01_9(prog, rep, rid='R01.9'):
 
 
 # ------------------------------------------------------------------------------
+# R01.10  the node that is marked is the node the slot names
+#
+def r01_10(prog, rep, rid='R01.10'):
+    rep.rule(rid, '_change_slot_states finds the node by comparing its index '
+             "field with the slot's node_index (nodes are addressed by index, "
+             'not by list position)', minimum=2)
+    base, classes = sched_classes(prog)
+    seen = set()
+    for K in classes:
+        f = prog.find_method(K, '_change_slot_states')
+        if id(f) in seen:
+            continue
+        seen.add(id(f))
+        rep.saw(f)
+        g = cfg_of(f)
+        smap = I.stmt_node_map(g)
+        methods = {f.name: f}
+        al = I.Aliases(prog, K, methods, 'self.nodes')
+        roots = set()
+        for kind, target, stmt in I.stores(f.node):
+            if al.is_rooted_expr(f.name, target):
+                roots.add(root_name(target))
+        if not roots:
+            raise AnalysisError('UNRECOGNISED-IDIOM %s: no node stores'
+                                % f.where)
+        for nv in sorted(roots):
+            binds = []
+            for n in walk(f.node):
+                if isinstance(n, ast.For) and \
+                        nv in stores_in_target(n.target):
+                    binds.append(('for', n))
+                if isinstance(n, ast.Assign) and any(
+                        isinstance(t, ast.Name) and t.id == nv
+                        for t in n.targets) and not (
+                        isinstance(n.value, ast.Constant)):
+                    binds.append(('assign', n))
+            posit = [b for k, b in binds if k == 'assign' and
+                     isinstance(b.value, ast.Subscript) and
+                     unparse(b.value.value) == 'self.nodes']
+            loops = [b for k, b in binds if k == 'for' and
+                     unparse(b.iter) == 'self.nodes']
+            if posit:
+                rep.bad(rid, f, posit[0], '%s: the node to mark is taken by '
+                        'list position (`%s`); node indices and list '
+                        'positions differ as soon as the node list was '
+                        'filtered (inaccessible nodes dropped with backup '
+                        'nodes), so another node is marked than the one '
+                        'granted' % (f.qual, short(posit[0], 50)),
+                        f.loc(posit[0]),
+                        history='backup nodes in use, node_01 inaccessible: '
+                        'nodes keep indices [0, 2, 3]; a slot on node index 2 '
+                        'marks list position 2 (node index 3): the granted '
+                        'node stays FREE and is granted again')
+                continue
+            if not loops:
+                # an alias of a part of another node variable
+                # (cores = node['cores']) is judged through that variable
+                if any(k == 'assign' and I.is_path(b.value) and
+                       root_name(b.value) != 'self' and
+                       al.is_rooted_expr(f.name, b.value)
+                       for k, b in binds):
+                    continue
+                raise AnalysisError('UNRECOGNISED-IDIOM %s: binding of the '
+                                    'node variable %r' % (f.where, nv))
+            okl = False
+            for L in loops:
+                for n in walk(L):
+                    if isinstance(n, ast.Compare) and len(n.ops) == 1 and \
+                            isinstance(n.ops[0], ast.Eq):
+                        sides = {unparse(n.left), unparse(n.comparators[0])}
+                        if "%s['index']" % nv in sides and any(
+                                x.endswith("['node_index']") for x in sides):
+                            # the match leaves the loop
+                            for t in [x for x in g.nodes if x.ast is n]:
+                                for e in g.succ[t.id]:
+                                    if e.label != 'T':
+                                        continue
+                                    r = g.reachable(e.dst, no_back=True)
+                                    if any(isinstance(g.nodes[x].ast,
+                                                      (ast.Break, ast.Return))
+                                           for x in r):
+                                        okl = True
+            rep.check(okl, rid, f, "%s: the node is found by `%s['index'] == "
+                      "slot['node_index']`" % (f.qual, nv),
+                      construct='%s:lookup' % f.qual,
+                      message="%s: the loop over self.nodes does not select "
+                      "the node whose 'index' equals the slot's node_index"
+                      % f.qual, loc=f.loc(),
+                      history='the occupancy of another node than the '
+                      'granted one is changed')
+
+
+# ------------------------------------------------------------------------------
+# R02.8  a node is offered at most once per search
+#
+def r02_8(prog, rep, rid='R02.8'):
+    rep.rule(rid, '_iterate_nodes offers every node at most once per search '
+             '(the search does not mark, a second visit would grant the same '
+             'free cores again)', minimum=2)
+    base, classes = sched_classes(prog)
+    from ..flow import reaching_defs
+    for K in classes:
+        f = prog.find_method(K, '_iterate_nodes')
+        if f is None:
+            raise AnalysisError('%s._iterate_nodes missing' % K.name)
+        rep.saw(f)
+        g = cfg_of(f)
+        smap = I.stmt_node_map(g)
+        yields = [n for n in walk(f.node) if isinstance(n, (ast.Yield,
+                                                           ast.YieldFrom))]
+        if not yields:
+            raise AnalysisError('UNRECOGNISED-IDIOM %s: no yield' % f.where)
+        verdict = None            # True ok / False violation / None unknown
+        why = ''
+        for y in yields:
+            yn = smap.get(id(y))
+            if yn is None or not yn.loops:
+                if isinstance(y, ast.YieldFrom):
+                    verdict = None
+                continue
+            H = g.nodes[yn.loops[-1]]
+
+            def is_len_nodes(e, at):
+                for _ in range(3):
+                    if isinstance(e, ast.Name):
+                        rd = reaching_defs(g, e.id, at)
+                        if len(rd) == 1 and rd[0][1] is not None:
+                            e = rd[0][1]
+                            continue
+                    break
+                return unparse(e) == 'len(self.nodes)'
+            if H.kind == 'for':
+                it = H.ast.iter
+                if isinstance(it, ast.Call) and dotted(it.func) == 'range' \
+                        and len(it.args) == 1:
+                    if is_len_nodes(it.args[0], H.id):
+                        verdict = True
+                    else:
+                        verdict, why = False, 'range(%s)' % short(it.args[0],
+                                                                  30)
+                elif 'self.nodes' in unparse(it) and not isinstance(
+                        it, ast.Call):
+                    verdict = True
+                else:
+                    verdict = None
+            elif H.kind == 'while':
+                t = H.ast.test
+                if isinstance(t, ast.Compare) and len(t.ops) == 1 and \
+                        isinstance(t.ops[0], ast.Lt) and \
+                        isinstance(t.left, ast.Name) and \
+                        is_len_nodes(t.comparators[0], H.id):
+                    c = t.left.id
+                    init = [v for n0, v in reaching_defs(g, c, H.id)
+                            if n0.id not in g.loop_body[H.id]]
+                    incs = [n0 for n0 in g.stmt_nodes()
+                            if n0.id in g.loop_body[H.id] and
+                            isinstance(n0.ast, ast.AugAssign) and
+                            isinstance(n0.ast.op, ast.Add) and
+                            unparse(n0.ast.target) == c and
+                            unparse(n0.ast.value) == '1']
+                    start = loop_slice(g, H.id)[0]
+                    once = len(incs) == 1 and not guards(g, incs[0].id,
+                                                         start=start)
+                    zero = len(init) == 1 and isinstance(init[0],
+                                                         ast.Constant) \
+                        and init[0].value == 0
+                    if once and zero:
+                        verdict = True
+                    else:
+                        verdict, why = False, 'counter %s not 0..len-1' % c
+                elif isinstance(t, ast.Compare) and len(t.ops) == 1 and \
+                        isinstance(t.ops[0], ast.LtE) and \
+                        is_len_nodes(t.comparators[0], H.id):
+                    verdict, why = False, short(t, 40)
+                else:
+                    verdict = None
+        if verdict is None:
+            raise AnalysisError('UNRECOGNISED-IDIOM %s: cannot bound the '
+                                'number of nodes yielded' % f.where)
+        rep.check(verdict, rid, f, '%s._iterate_nodes yields len(self.nodes) '
+                  'nodes per search' % K.name, construct='%s:once' % K.name,
+                  message='%s._iterate_nodes can offer a node twice in one '
+                  'search (%s): _find_resources does not mark what it finds, '
+                  'so the second visit hands out the same free cores again'
+                  % (K.name, why), loc=f.loc(),
+                  history='ranks=5, ranks_per_node=2 on two 4-core nodes: the '
+                  'start node is visited twice, one core is given to two '
+                  'ranks and the node hosts 3 ranks')
+
+
+# ------------------------------------------------------------------------------
 #
 def run(prog, rep, tier):
     rep.decided = ('single writer of node occupancy (only _change_slot_states '
@@ -1036,6 +1250,8 @@ def run(prog, rep, tier):
     r01_7(prog, rep)
     r01_8(prog, rep)
     r01_9(prog, rep)
+    r01_10(prog, rep)
+    r02_8(prog, rep, rid='R01.11')
     if tier == 'thorough':
         # sweep: the single-writer rule over every scheduler class that
         # inherits the node-list representation
@@ -1132,6 +1348,17 @@ MUTATIONS = [
              "            if self.lfs is not None:\n                if rr.lfs and self.lfs > rr.lfs: return None\n\n            if self.mem is not None:\n                if rr.mem and self.mem < rr.mem: return None\n\n            slot = Slot(")]),
     dict(name='R01.9 find_slot mem test dropped', rules=('R01.9',), edits=[
         (_N, "            if self.mem is not None:\n                if rr.mem and self.mem < rr.mem: return None\n\n            slot = Slot(", "            slot = Slot(")]),
+    dict(name='R01.6 share tally overwritten instead of accumulated (seed C01-a)', rules=('R01.6',), edits=[
+        (_C, "                        gpu_shares[gpu_idx] = gpus_per_slot + \\\n                                              gpu_shares.get(gpu_idx, 0.0)\n", "                        gpu_shares[gpu_idx] = gpus_per_slot\n")]),
+    dict(name='R01.10 node addressed by list position (seed C01-b)', rules=('R01.10',), edits=[
+        (_B, "            node = None\n            node_found = False\n            for node in self.nodes:\n                if node['index'] == slot['node_index']:\n                    node_found = True\n                    break\n\n            if not node_found:\n                raise RuntimeError('inconsistent node information')\n\n            # iterate over cores/gpus in the slot, and update state\n            for core in slot['cores']:\n                node['cores'][core['index']] = new_state",
+             "            node = self.nodes[slot['node_index']]\n\n            # iterate over cores/gpus in the slot, and update state\n            for core in slot['cores']:\n                node['cores'][core['index']] = new_state")]),
+    dict(name='R01.10 jsrun: node matched by name of another slot field', rules=('R01.10',), edits=[
+        (_J, "                if node['index'] == slot['node_index']:", "                if node['index'] == slot['lfs']:")]),
+    dict(name='R01.11 start node offered twice (seed C02-a)', rules=('R01.11',), edits=[
+        (_C, "        while iterator_count < len(self.nodes):", "        while iterator_count <= len(self.nodes):")]),
+    dict(name='R01.11 jsrun iterator counts in steps of zero', rules=('R01.11',), edits=[
+        (_J, "            iterator_count    += 1\n", "            iterator_count    += 0\n")]),
 ]
 
 SILENT = [
@@ -1162,4 +1389,8 @@ SILENT = [
              "                if blocked_gpus:\n                    for idx in blocked_gpus:\n                        node['gpus'][idx] = rpc.DOWN\n")]),
     dict(name='placement result tested into a local first', edits=[
         (_B, "                    if self._try_allocation(task):\n                        # task got scheduled", "                    placed = self._try_allocation(task)\n                    if placed:\n                        # task got scheduled")]),
+    dict(name='node iterator as for-range over len(self.nodes)', edits=[
+        (_C, "        iterator_count = 0\n\n        while iterator_count < len(self.nodes):\n            yield self.nodes[self._node_offset]\n            iterator_count    += 1\n", "        n_nodes = len(self.nodes)\n        for _ in range(n_nodes):\n            yield self.nodes[self._node_offset]\n")]),
+    dict(name='tally accumulated with +=', edits=[
+        (_C, "                        gpu_shares[gpu_idx] = gpus_per_slot + \\\n                                              gpu_shares.get(gpu_idx, 0.0)\n", "                        gpu_shares.setdefault(gpu_idx, 0.0)\n                        gpu_shares[gpu_idx] += gpus_per_slot\n")]),
 ]
